@@ -218,7 +218,30 @@ def _drop_self(f):
     return g
 
 
-MODELS = {"Connection": Connection, "Engine": Engine, "Proxy": Proxy}
+class Crypto(object):
+    """CryptographyEngine as seen by the request handlers: every method returns an uninterpreted
+    value tainted `secret` (or raises InvalidField / CryptographicFailure); the call and its
+    arguments are recorded as a ('crypto', method, args, kwargs) event."""
+
+    def _pyvc_dynamic(I, obj, name):
+        def call(I2, args, kw):
+            P = I2.path
+            P.event('crypto', name, tuple(args), dict(kw))
+            k = P.choose(3, "crypto-outcome")
+            if k:
+                import kmip.core.exceptions as E
+                cls = E.InvalidField if k == 1 else E.CryptographicFailure
+                e = ExcVal(cls, (Opaque('str', 'crypto failure', facts={'nonempty'}),))
+                from .modular import _exc_fields
+                _exc_fields(I2, e, cls)
+                P.event('raise', cls.__name__)
+                raise _pyvc().Raised(e)
+            return Opaque('object', 'crypto.' + name, taint=frozenset(['secret']))
+        call._pyvc_model = True
+        return _pyvc().BoundMethod(obj, _drop_self(call))
+
+
+MODELS = {"Connection": Connection, "Engine": Engine, "Proxy": Proxy, "Crypto": Crypto}
 
 
 def make(name, I, label):
@@ -229,6 +252,8 @@ def make(name, I, label):
         o.fields['sent'] = []
         o.meta['initial_fields'] = dict(o.fields)
         return o
+    if name == "Crypto":
+        return Obj(Crypto, {}, label)
     if name in ("Proxy", "ProxyNoMessage"):
         o = Obj(Proxy, {'__messages__': name == "Proxy"}, label)
         return o
